@@ -18,6 +18,8 @@ use serde::{Deserialize, Serialize};
 use serde_json::Value;
 use std::time::Duration;
 
+use arbitrary::Unstructured;
+
 const ID: &str = "C05";
 
 #[derive(Debug, Clone, Serialize, Deserialize)]
@@ -151,6 +153,8 @@ fn build_msg(m: &Msg, real_sender: &str) -> DhtNetworkMessage {
 
 #[derive(Debug, Clone, Serialize, Deserialize)]
 pub enum Input {
+    /// bytes chosen by the coverage-guided stage (or a replay), handed over as they are
+    Raw(Vec<u8>),
     Random(Size, u8),
     MutatedMsg(Msg, Vec<Mutn>),
     ValidMsg(Msg),
@@ -167,6 +171,7 @@ pub struct Case {
 
 fn bytes_of(i: &Input, sender: &str) -> (Vec<u8>, bool, Option<Msg>) {
     match i {
+        Input::Raw(b) => (b.clone(), false, None),
         Input::Random(sz, fill) => {
             let n = size_of(sz);
             let mut b = vec![*fill; n];
@@ -339,6 +344,7 @@ async fn run_async(c: &Case) -> Verdict {
     let decoded_outer = postcard::from_bytes::<DhtNetworkMessage>(&bytes).is_ok();
     v.nt(decoded_outer || matches!(c.input, Input::Random(Size::B0 | Size::B1 | Size::K64m1 | Size::K64 | Size::K64p1 | Size::K128, _)));
     v.class(match &c.input {
+        Input::Raw(..) => "raw_bytes",
         Input::Random(..) => "random",
         Input::MutatedMsg(..) => "mutated_message",
         Input::ValidMsg(..) => "valid_extreme_fields",
@@ -478,6 +484,75 @@ pub fn inbound_case() -> impl Strategy<Value = Case> {
 pub fn core_case() -> impl Strategy<Value = CoreCase> {
     (any::<u8>(), any::<u8>(), any::<u16>(), any::<u8>(), prop_oneof![1 => Just(Vec::new()), 2 => prop::collection::vec(mutn(), 1..5)]).prop_map(|(kind, count, value_len, table, muts)| CoreCase { kind, count, value_len, table, muts })
 }
+// ---- byte decoders for the coverage-guided stage: same shapes and ranges as the strategies above -------------
+fn mutn_dec(u: &mut Unstructured) -> arbitrary::Result<Mutn> {
+    Ok(match u.int_in_range(0u8..=12)? {
+        0..=3 => Mutn::Flip(u.arbitrary()?, u.arbitrary()?),
+        4 | 5 => Mutn::Truncate(u.arbitrary()?),
+        6 => {
+            let n = u.int_in_range(0usize..=11)?;
+            Mutn::Splice(u.arbitrary()?, u.bytes(n.min(u.len()))?.to_vec())
+        }
+        7..=9 => Mutn::Varint(u.arbitrary()?, u.arbitrary()?),
+        10 | 11 => Mutn::SetByte(u.arbitrary()?, u.arbitrary()?),
+        _ => {
+            let n = u.int_in_range(0usize..=15)?;
+            Mutn::Append(u.bytes(n.min(u.len()))?.to_vec())
+        }
+    })
+}
+fn msg_dec(u: &mut Unstructured) -> arbitrary::Result<Msg> {
+    Ok(Msg { kind: u.arbitrary()?, response: u.arbitrary()?, value_len: u.arbitrary()?, claimed_source: u.arbitrary()?, key: u.arbitrary()?, ts_off: if u.ratio(3u8, 4u8)? { 0 } else { u.int_in_range(-400i32..=99)? } })
+}
+pub fn decode_inbound(data: &[u8]) -> Option<Case> {
+    let mut u = Unstructured::new(data);
+    let r: arbitrary::Result<Case> = (|| {
+        let protocol = u.arbitrary()?;
+        let frame_ts_off = match u.int_in_range(0u8..=6)? {
+            0..=2 => 0,
+            3 | 4 => *u.choose(&[-310i32, -296, -290, -304, 20, 26, 34, 40])?,
+            _ => u.int_in_range(-400i32..=99)?,
+        };
+        let frame_from = u.arbitrary()?;
+        let nfm = if u.ratio(3u8, 4u8)? { 0 } else { u.int_in_range(1usize..=3)? };
+        let mut frame_mut = Vec::new();
+        for _ in 0..nfm {
+            frame_mut.push(mutn_dec(&mut u)?);
+        }
+        let input = match u.int_in_range(0u8..=3)? {
+            0 | 1 => {
+                let n = u.len().min(70_000);
+                Input::Raw(u.bytes(n)?.to_vec())
+            }
+            2 => {
+                let m = msg_dec(&mut u)?;
+                let n = u.int_in_range(1usize..=4)?;
+                let mut ms = Vec::new();
+                for _ in 0..n {
+                    ms.push(mutn_dec(&mut u)?);
+                }
+                Input::MutatedMsg(m, ms)
+            }
+            _ => Input::ValidMsg(msg_dec(&mut u)?),
+        };
+        Ok(Case { input, protocol, frame_ts_off, frame_from, frame_mut })
+    })();
+    r.ok()
+}
+pub fn decode_core(data: &[u8]) -> Option<CoreCase> {
+    let mut u = Unstructured::new(data);
+    let r: arbitrary::Result<CoreCase> = (|| {
+        let (kind, count, value_len, table) = (u.arbitrary()?, u.arbitrary()?, u.arbitrary()?, u.arbitrary()?);
+        let n = u.int_in_range(0usize..=4)?;
+        let mut muts = Vec::new();
+        for _ in 0..n {
+            muts.push(mutn_dec(&mut u)?);
+        }
+        Ok(CoreCase { kind, count, value_len, table, muts })
+    })();
+    r.ok()
+}
+
 pub fn check_inbound(c: &Case) -> Verdict {
     run_case(c)
 }
